@@ -69,6 +69,8 @@ pub struct Exec {
     pub phys_dirs: Vec<Option<std::path::PathBuf>>,
     /// HWrite issues exactly one write call (C14) instead of write_all semantics
     pub single_write: bool,
+    /// HRead keeps reading until the buffer is full or EOF (short reads are legal; C15 compares data)
+    pub fill_reads: bool,
 }
 
 pub fn resolve(root: &VfsPath, s: &str) -> Result<VfsPath, VfsError> {
@@ -133,7 +135,7 @@ fn write_all_counted(h: &mut dyn Write, mut b: &[u8]) -> std::io::Result<u64> {
 impl Exec {
     pub fn new(roots: Vec<VfsPath>) -> Exec {
         let n = roots.len();
-        Exec { roots, slots: BTreeMap::new(), phys_dirs: vec![None; n], single_write: false }
+        Exec { roots, slots: BTreeMap::new(), phys_dirs: vec![None; n], single_write: false, fill_reads: false }
     }
 
     fn path(&self, p: &P) -> Result<VfsPath, VfsError> {
@@ -247,6 +249,23 @@ impl Exec {
                 self.slots.insert(*slot, Slot::W(h));
                 Ok(Out::Unit)
             }
+            Op::HRead(slot, n) if self.fill_reads && *n > 0 => match self.slots.get_mut(slot) {
+                Some(Slot::R(h)) => {
+                    let mut buf = vec![0u8; *n];
+                    let mut got = 0;
+                    while got < *n {
+                        match h.read(&mut buf[got..]) {
+                            Ok(0) => break,
+                            Ok(k) => got += k.min(*n - got),
+                            Err(e) if e.kind() == std::io::ErrorKind::Interrupted => continue,
+                            Err(e) => return Err(io_err_info(&e)),
+                        }
+                    }
+                    buf.truncate(got);
+                    Ok(Out::Read(buf))
+                }
+                _ => Ok(Out::Unit),
+            },
             Op::HRead(slot, n) => match self.slots.get_mut(slot) {
                 Some(Slot::R(h)) => {
                     let mut buf = vec![0u8; *n];
